@@ -70,6 +70,22 @@ def rand_explicit(rng, keys, p=0.5):
     return {k: rng.choice(DOM[k]) for k in keys if rng.random() < p}
 
 
+class ChunkStream:
+    """a writer that collects chunks and has a length: falsy until something was written"""
+    def __init__(self):
+        self.chunks = []
+
+    def write(self, text):
+        self.chunks.append(text)
+        return len(text)
+
+    def __len__(self):
+        return len(self.chunks)
+
+    def getvalue(self):
+        return ''.join(self.chunks)
+
+
 class Registered:
     """a registered type whose __repr__ is pretty_repr"""
     __repr__ = pp.pretty_repr
@@ -151,6 +167,17 @@ def chunk_fn(cases):
                 s1 = io.StringIO()
                 pp.pprint(value, stream=s1, end=end, **explicit)
                 obs['pprint'] = s1.getvalue()
+                # a stream given explicitly is the stream written to, whatever its truth value (a chunk collector with __len__ is
+                # falsy while empty); nothing may go to sys.stdout instead
+                cs, fake_out = ChunkStream(), io.StringIO()
+                real_out, sys.stdout = sys.stdout, fake_out
+                try:
+                    pp.pprint(value, stream=cs, end=end, **explicit)
+                    cs2 = ChunkStream()
+                    pp.PrettyPrinter(stream=cs2, end=end, **explicit).pprint(value)
+                finally:
+                    sys.stdout = real_out
+                obs['pprint(falsy stream)'] = [cs.getvalue(), cs2.getvalue(), fake_out.getvalue()]
                 s2 = io.StringIO()
                 pp.cpprint(value, stream=s2, end=end, **explicit)
                 obs['cpprint'] = s2.getvalue()
@@ -218,6 +245,8 @@ def chunk_fn(cases):
             bad = 'pprint != pformat + end'
         elif obs['cpprint'] != obs['pformat'] + end and '\x1b' not in obs['cpprint']:
             bad = 'cpprint (colour off) != pformat + end'
+        elif obs['pprint(falsy stream)'] != [obs['pformat'] + end, obs['pformat'] + end, '']:
+            bad = 'pprint / PrettyPrinter.pprint with a stream that is falsy while empty: the stream got %r and %r, sys.stdout got %r' % tuple(x[:60] for x in obs['pprint(falsy stream)'])
         elif obs['PrettyPrinter.pformat'] != obs['pformat']:
             bad = 'PrettyPrinter.pformat != pformat'
         elif obs['PrettyPrinter.pprint'] != obs['pformat'] + end:
